@@ -17,6 +17,7 @@ type treeEntry struct {
 	Path   string
 	Kind   string // dir, file, symlink
 	Target string // for symlinks
+	LinkTo string // for files: another name (hard link) of this earlier regular file
 }
 
 var (
@@ -46,7 +47,18 @@ func genTree(r *rand.Rand) []treeEntry {
 			p := filepath.Join(parent, c15FileNames[r.Intn(len(c15FileNames))])
 			if !seen[p] {
 				seen[p] = true
-				entries = append(entries, treeEntry{Path: p, Kind: "file"})
+				e := treeEntry{Path: p, Kind: "file"}
+				// now and then a second name of a file that exists already: two directory entries, one inode. Both
+				// are regular files named *.go, and each of them is a file to process
+				if strings.HasSuffix(p, ".go") && r.Intn(5) == 0 {
+					for _, o := range entries {
+						if o.Kind == "file" && o.LinkTo == "" && strings.HasSuffix(o.Path, ".go") && filepath.Base(o.Path) != "x.go" {
+							e.LinkTo = o.Path
+							break
+						}
+					}
+				}
+				entries = append(entries, e)
 			}
 		default:
 			// symlinks and FIFOs, also under names that would prune a directory (they are not directories: their
@@ -353,6 +365,8 @@ func runC15(ctx *core.Ctx, idx int) *core.Result {
 	root := filepath.Join(base, "work")
 	os.Mkdir(root, 0o755)
 	os.WriteFile(filepath.Join(base, "p.patch"), []byte(c15Patch), 0o644)
+	hardLinks := 0
+	defer func() { res.Ob("hard-linked-go-files", hardLinks) }()
 	for _, e := range entries {
 		p := filepath.Join(root, e.Path)
 		switch e.Kind {
@@ -360,7 +374,11 @@ func runC15(ctx *core.Ctx, idx int) *core.Result {
 			os.MkdirAll(p, 0o755)
 		case "file":
 			os.MkdirAll(filepath.Dir(p), 0o755)
-			os.WriteFile(p, []byte(c15Src), 0o644)
+			if e.LinkTo == "" || os.Link(filepath.Join(root, e.LinkTo), p) != nil {
+				os.WriteFile(p, []byte(c15Src), 0o644)
+			} else {
+				hardLinks++
+			}
 		case "symlink":
 			os.MkdirAll(filepath.Dir(p), 0o755)
 			os.Symlink(e.Target, p)
